@@ -2,30 +2,34 @@ import Driver.RespCmds
 import Driver.StoreCmds
 import Driver.NetCmds
 import Driver.ConcCmds
+import Driver.LtsCmds
 
 open Driver
 
-partial def loop (h : IO.FS.Stream) (out : IO.FS.Stream) (ss : SS) (ns : NS := {}) (cl : CL := {}) : IO Unit := do
+partial def loop (h : IO.FS.Stream) (out : IO.FS.Stream) (ss : SS) (ns : NS := {}) (cl : CL := {}) (ls : LS := {}) : IO Unit := do
   out.flush
   let line ← h.getLine
   if line.isEmpty then return ()
   let toks := (line.trimAscii.toString.splitOn " ").filter (· ≠ "")
   match toks with
-  | [] => out.putStrLn ""; loop h out ss ns cl
-  | "#" :: _ => out.putStrLn line.trimAscii.toString; loop h out ss ns cl
+  | [] => out.putStrLn ""; loop h out ss ns cl ls
+  | "#" :: _ => out.putStrLn line.trimAscii.toString; loop h out ss ns cl ls
   | _ =>
     match respStep toks with
-    | some a => out.putStrLn a; loop h out ss ns cl
+    | some a => out.putStrLn a; loop h out ss ns cl ls
     | none =>
       match netStep ns toks with
-      | some (ns', a) => out.putStrLn a; loop h out ss ns' cl
+      | some (ns', a) => out.putStrLn a; loop h out ss ns' cl ls
       | none =>
         match storeStep ss toks with
-        | some (ss', a) => out.putStrLn a; loop h out ss' ns cl
+        | some (ss', a) => out.putStrLn a; loop h out ss' ns cl ls
         | none =>
           match clStep cl toks with
-          | some (cl', a) => out.putStrLn a; loop h out ss ns cl'
-          | none => out.putStrLn "bad-op"; loop h out ss ns cl
+          | some (cl', a) => out.putStrLn a; loop h out ss ns cl' ls
+          | none =>
+            match ltsStep ls toks with
+            | some (ls', a) => out.putStrLn a; loop h out ss ns cl ls'
+            | none => out.putStrLn "bad-op"; loop h out ss ns cl ls
 
 def main : IO Unit := do
   let stdin ← IO.getStdin
